@@ -1,6 +1,6 @@
 (* C10 — property theorems (statements only).  Owner: builder-parse. *)
 From Coq Require Import List NArith Bool Arith.
-From DV Require Import C10.Model C10.Proofs C10.Backtrack C10.NormalForm.
+From DV Require Import C10.Model C10.Proofs C10.Backtrack C10.NormalForm C10.Layout C10.NoLoss C10.Shape C10.Complete.
 Import ListNotations.
 
 (* longest match: for every key set and every input, outside the `item` and `for .. in` tweaks, the name token is the
@@ -65,3 +65,169 @@ Theorem C10_till_in_first_part_orig_refuted :
   lex_name_orig [] true inp_in_plus_x 0 = LCrash /\ lex_name [] true inp_in_plus_x 0 = LName inp_in_plus_x 4.
 Proof. exact till_in_first_part_witness. Qed.
 Print Assumptions C10_till_in_first_part_orig_refuted.
+
+(* ------------------------------------------------------------------ round 4 (prover-C10): the layout of the parts in the input, all inputs *)
+
+(* the parts do not overlap: the first part begins at the start position, every later part is non-empty and begins after the
+   recorded end of its predecessor, so consumed_positions strictly increases *)
+Theorem C10_parts_disjoint : forall inp pos parts cps endpos,
+  pos < length inp -> collect inp pos = (parts, cps, endpos) ->
+  S (nth 0 cps 0) = pos + length (nth 0 parts []) /\
+  forall i, S i < length parts ->
+    1 <= length (nth (S i) parts []) /\
+    nth i cps 0 + length (nth (S i) parts []) <= nth (S i) cps 0 /\
+    nth i cps 0 < nth (S i) cps 0.
+Proof. exact parts_disjoint. Qed.
+Print Assumptions C10_parts_disjoint.
+
+(* the gaps are white space: every input position strictly between the recorded end of part i and the first character of part i+1
+   (which by C10_backtrack_exact sits at S (nth (S i) cps 0) - length of that part) holds a white-space character *)
+Theorem C10_gaps_whitespace : forall inp pos parts cps endpos,
+  pos < length inp -> collect inp pos = (parts, cps, endpos) ->
+  forall i, S i < length parts ->
+  forall j, nth i cps 0 < j -> j + length (nth (S i) parts []) <= nth (S i) cps 0 ->
+    j < length inp /\ is_ws (ch inp j) = true.
+Proof. exact gaps_whitespace. Qed.
+Print Assumptions C10_gaps_whitespace.
+
+(* no character lost, none duplicated: for every prefix of k collected parts, consumed ++ rest = input, where consumed -- the input
+   up to the recorded end of part k -- is the text before the name followed by exactly the k parts in order (weave: gap 1, part 1,
+   gap 2, part 2, ...; gap 1 is empty, every gap is white space) and rest starts at the position the lexer goes back to *)
+Theorem C10_backtrack_no_loss : forall inp pos parts cps endpos,
+  pos < length inp -> collect inp pos = (parts, cps, endpos) ->
+  forall k, 1 <= k <= length parts ->
+  exists gaps, length gaps = k /\ hd [] gaps = [] /\ Forall all_ws gaps /\
+    firstn (S (nth (k - 1) cps 0)) inp = firstn pos inp ++ weave gaps (firstn k parts) /\
+    (firstn pos inp ++ weave gaps (firstn k parts)) ++ skipn (S (nth (k - 1) cps 0)) inp = inp.
+Proof. exact backtrack_no_loss. Qed.
+Print Assumptions C10_backtrack_no_loss.
+
+(* read on the characters: the non-space characters of the consumed text are the non-space characters of the k chosen parts, in order *)
+Theorem C10_nonspace_preserved : forall inp pos parts cps endpos,
+  pos < length inp -> collect inp pos = (parts, cps, endpos) ->
+  forall k, 1 <= k <= length parts ->
+    filter non_ws (skipn pos (firstn (S (nth (k - 1) cps 0)) inp)) = filter non_ws (concat (firstn k parts)).
+Proof. exact nonspace_preserved. Qed.
+Print Assumptions C10_nonspace_preserved.
+
+(* the design's statement: when a prefix is bound (outside the `item` and `for .. in` tweaks) the token is the longest bound prefix
+   and the rest is the input right after it *)
+Theorem C10_longest_and_rest : forall keys inp pos parts cps endpos,
+  pos < length inp -> collect inp pos = (parts, cps, endpos) ->
+  (match parts with p :: _ => str_eqb p str_item | [] => false end) = false ->
+  forall k, 1 <= k <= length parts -> bound keys parts k -> (forall j, k < j <= length parts -> ~ bound keys parts j) ->
+  exists gaps, length gaps = k /\ hd [] gaps = [] /\ Forall all_ws gaps /\
+    lex_name keys false inp pos = LName (name_new (firstn k parts)) (S (nth (k - 1) cps 0)) /\
+    (firstn pos inp ++ weave gaps (firstn k parts)) ++ skipn (S (nth (k - 1) cps 0)) inp = inp.
+Proof. exact longest_and_rest. Qed.
+Print Assumptions C10_longest_and_rest.
+
+(* every token of the repaired lexer, every scope, with and without the for / some / every flag, `item` included: the token is the
+   normal form of a prefix of k >= 1 collected parts, and the input from the start position to the position where the lexer resumes
+   is those k parts in order, separated by white space only, followed by white space only (tail; non-empty only when no prefix is
+   bound and the whole candidate is the token) *)
+Theorem C10_lex_name_no_loss : forall keys till_in inp pos parts cps endpos n newpos,
+  pos < length inp -> collect inp pos = (parts, cps, endpos) ->
+  lex_name keys till_in inp pos = LName n newpos ->
+  exists k gaps tail, 1 <= k <= length parts /\ n = name_new (firstn k parts) /\
+    length gaps = k /\ hd [] gaps = [] /\ Forall all_ws gaps /\ all_ws tail /\
+    (tail <> [] -> forall j, 1 <= j <= length parts -> ~ bound keys parts j) /\
+    firstn newpos inp = firstn pos inp ++ weave gaps (firstn k parts) ++ tail /\
+    (firstn pos inp ++ weave gaps (firstn k parts) ++ tail) ++ skipn newpos inp = inp.
+Proof. exact lex_name_no_loss. Qed.
+Print Assumptions C10_lex_name_no_loss.
+
+(* the repaired lexer has no crash outcome, whatever the flag *)
+Theorem C10_lex_name_total : forall keys till_in inp pos, pos < length inp -> lex_name keys till_in inp pos <> LCrash.
+Proof. exact lex_name_total. Qed.
+Print Assumptions C10_lex_name_total.
+
+(* `ab  cd - ef + 1` (three words, one symbol, irregular blanks) with `ab` and `ab cd-ef` bound: six parts are collected, the prefixes
+   of 1 and of 4 parts are bound, the token is `ab cd-ef`, the lexer resumes at index 11 and consumed ++ rest = input *)
+Example C10_no_loss_nonvacuous :
+  collect inp_three_words 0 = (parts_three_words, [1; 5; 7; 10; 12; 14], 15) /\
+  length inp_three_words = 15 /\
+  mem (flatten_parts (firstn 1 parts_three_words)) [key_ab; key_ab_cd_ef] = true /\
+  mem (flatten_parts (firstn 4 parts_three_words)) [key_ab; key_ab_cd_ef] = true /\
+  forallb (fun j => negb (mem (flatten_parts (firstn j parts_three_words)) [key_ab; key_ab_cd_ef])) [2; 3; 5; 6] = true /\
+  lex_name [key_ab; key_ab_cd_ef] false inp_three_words 0 = LName key_ab_cd_ef 11 /\
+  (firstn 0 inp_three_words ++ weave gaps_three_words (firstn 4 parts_three_words)) ++ skipn 11 inp_three_words = inp_three_words /\
+  forallb (forallb is_ws) gaps_three_words = true /\
+  lex_all [key_ab; key_ab_cd_ef] inp_three_words = Some [KName key_ab_cd_ef; KSym 43; KNum [49%N]] /\
+  lex_all [key_ab; [99; 100]%N; [101; 102]%N] inp_three_words = Some [KName key_ab; KName [99; 100]%N; KSym 45; KName [101; 102]%N; KSym 43; KNum [49%N]].
+Proof. exact three_words_witness. Qed.
+Print Assumptions C10_no_loss_nonvacuous.
+
+(* ------------------------------------------------------------------ round 4: "longest" without reference to how the collector cuts the input *)
+
+(* the character classes of the lexer overlap in exactly three code points (U+1680, U+180E, U+FEFF are white space and name characters);
+   the additional symbols are neither *)
+Theorem C10_char_classes : forall c,
+  (is_name_part c = true -> is_ws c = true -> c = 5760%N \/ c = 6158%N \/ c = 65279%N) /\
+  (is_add_sym c = true -> is_ws c = false /\ is_name_part c = false).
+Proof. exact char_classes. Qed.
+Print Assumptions C10_char_classes.
+
+(* every collected part is a word (a non-empty run of name characters that the next input character does not extend) or one additional
+   symbol; where the collector stops the next character is neither a name character, nor an additional symbol, nor white space *)
+Theorem C10_collect_shape : forall inp pos parts cps endpos,
+  pos < length inp -> is_name_start (ch inp pos) = true -> collect inp pos = (parts, cps, endpos) ->
+  Forall2 (part_ok inp) parts cps /\
+  next_is is_name_part inp (endpos - 1) = false /\ next_is is_add_sym inp (endpos - 1) = false /\ next_is is_ws inp (endpos - 1) = false.
+Proof. exact collect_shape. Qed.
+Print Assumptions C10_collect_shape.
+
+(* longest match, stated on the input text: let a name qs (words and additional symbols) be written at pos with any spacing gs
+   (canon: white-space gaps, a non-empty gap between two words, a final word not followed by a name character) and be followed by R.
+   Then qs is the prefix of the collected parts of that length, and if its normal form is a scope key the token is the longest bound
+   prefix, has at least as many parts, and the lexer resumes at or after the end of the written name.  So no bound name written at pos
+   is longer than the token, whatever way it is cut.  Hypothesis: the input contains none of the three code points of C10_char_classes *)
+Theorem C10_longest_written : forall keys inp pos parts cps endpos,
+  pos < length inp -> is_name_start (ch inp pos) = true -> unambiguous inp -> collect inp pos = (parts, cps, endpos) ->
+  (match parts with p :: _ => str_eqb p str_item | [] => false end) = false ->
+  forall gs qs R, qs <> [] -> skipn pos inp = weave gs qs ++ R -> canon R false gs qs ->
+    firstn (length qs) parts = qs /\
+    (mem (flatten_parts qs) keys = true ->
+     exists k, length qs <= k <= length parts /\ bound keys parts k /\
+       (forall j, k < j <= length parts -> ~ bound keys parts j) /\
+       lex_name keys false inp pos = LName (name_new (firstn k parts)) (S (nth (k - 1) cps 0)) /\
+       pos + length (weave gs qs) <= S (nth (k - 1) cps 0)).
+Proof. exact longest_written. Qed.
+Print Assumptions C10_longest_written.
+
+(* `ab cd-ef` is written as `ab  cd - ef` at index 0 of the input of C10_no_loss_nonvacuous and followed by ` + 1`: the hypotheses of
+   C10_longest_written hold for it *)
+Example C10_longest_written_nonvacuous :
+  skipn 0 inp_three_words = weave gaps_three_words (firstn 4 parts_three_words) ++ rest_three_words /\
+  canon rest_three_words false gaps_three_words (firstn 4 parts_three_words) /\
+  unambiguous inp_three_words /\ is_name_start (ch inp_three_words 0) = true /\
+  mem (flatten_parts (firstn 4 parts_three_words)) [key_ab; key_ab_cd_ef] = true.
+Proof. exact three_words_written. Qed.
+Print Assumptions C10_longest_written_nonvacuous.
+
+(* what the overlap means: directly after a name character such a code point continues the word, after a blank it is white space *)
+Example C10_overlap_reading :
+  collect [97; 5760; 98]%N 0 = ([[97; 5760; 98]%N], [2], 3) /\
+  collect [97; 32; 5760; 98]%N 0 = ([[97%N]; [98%N]], [0; 3], 4).
+Proof. exact overlap_reading_witness. Qed.
+Print Assumptions C10_overlap_reading.
+
+(* C10_longest for both values of the for / some / every flag, and the two tweaks exactly: a candidate whose first part is `item` gives
+   `item`; with the flag set and the keyword `in` as a part after the first one the token is the parts before `in`; in every other case
+   (flag clear, or no `in` part, or `in` as the first part) the token is the longest bound prefix, else the whole candidate *)
+Theorem C10_lex_name_cases : forall keys till_in inp pos parts cps endpos,
+  collect inp pos = (parts, cps, endpos) ->
+  ((match parts with p :: _ => str_eqb p str_item | [] => false end) = true ->
+     lex_name keys till_in inp pos = LName str_item (S (nth 0 cps 0))) /\
+  ((match parts with p :: _ => str_eqb p str_item | [] => false end) = false ->
+     forall i, till_in = true -> index_of str_in parts 0 = Some (S i) ->
+     lex_name keys till_in inp pos = LName (name_new (firstn (S i) parts)) (S (nth i cps 0))) /\
+  ((match parts with p :: _ => str_eqb p str_item | [] => false end) = false ->
+     (till_in = false \/ index_of str_in parts 0 = None \/ index_of str_in parts 0 = Some 0) ->
+     (forall pc, 1 <= pc <= length parts -> bound keys parts pc ->
+        (forall j, pc < j <= length parts -> ~ bound keys parts j) ->
+        lex_name keys till_in inp pos = LName (name_new (firstn pc parts)) (S (nth (pc - 1) cps 0))) /\
+     ((forall j, 1 <= j <= length parts -> ~ bound keys parts j) ->
+        lex_name keys till_in inp pos = LName (name_new parts) endpos)).
+Proof. exact lex_name_cases. Qed.
+Print Assumptions C10_lex_name_cases.
